@@ -104,10 +104,15 @@ theorem rangeStart_ok (ovf : Bool) (sb : Bd) (h : BdOk sb) : rangeStart ovf sb =
 theorem rangeEnd_ok (ovf : Bool) (len : Nat) (eb : Bd) (h : BdOk eb) : rangeEnd ovf len eb = .ok (bdEnd len eb) := by
   cases eb <;> simp [rangeEnd, bdEnd, BdOk] at * <;> exact addOne_lt _ _ h
 
+theorem drainWith_eq_core (o : Bool) (s : Bytes) (sb eb : Bd) (take back : Nat) (forget : Bool)
+    (hs : BdOk sb) (he : BdOk eb) :
+    drainWith o s sb eb take back forget = drainCore s (bdStart sb) (bdEnd s.length eb) take back forget := by
+  simp [drainWith, rangeStart_ok _ _ hs, rangeEnd_ok _ _ _ he]
+
 theorem drain_eq_core (ovf : Bool) (s : Bytes) (sb eb : Bd) (take back : Nat) (forget : Bool)
     (hs : BdOk sb) (he : BdOk eb) :
-    drain ovf s sb eb take back forget = drainCore s (bdStart sb) (bdEnd s.length eb) take back forget := by
-  simp [drain, rangeStart_ok _ _ hs, rangeEnd_ok _ _ _ he]
+    drain ovf s sb eb take back forget = drainCore s (bdStart sb) (bdEnd s.length eb) take back forget :=
+  drainWith_eq_core _ s sb eb take back forget hs he
 
 theorem startAssert_ok (ovf : Bool) (s : Bytes) (sb : Bd) (h : BdOk sb) :
     startAssert ovf s sb = if isCharBoundary s (bdStart sb) then .ok () else .panic := by
@@ -125,12 +130,12 @@ theorem endAssert_ok (ovf : Bool) (s : Bytes) (eb : Bd) (h : BdOk eb) :
 
 /-- `replace_range` with bounds away from `usize::MAX`: panics unless both ends are char
 boundaries and `start <= end`; otherwise head ++ replacement ++ tail -/
-theorem replaceRange_eq (ovf : Bool) (s : Bytes) (sb eb : Bd) (t : Bytes) (hs : BdOk sb) (he : BdOk eb) :
-    replaceRange ovf s sb eb t =
+theorem replaceRangeWith_eq (o₁ o₂ : Bool) (s : Bytes) (sb eb : Bd) (t : Bytes) (hs : BdOk sb) (he : BdOk eb) :
+    replaceRangeWith o₁ o₂ s sb eb t =
       if isCharBoundary s (bdStart sb) = true ∧ isCharBoundary s (bdEnd s.length eb) = true
           ∧ bdStart sb ≤ bdEnd s.length eb
       then .ok (s.take (bdStart sb) ++ t ++ s.drop (bdEnd s.length eb)) else .panic := by
-  unfold replaceRange spliceBytes
+  unfold replaceRangeWith spliceBytes
   rw [startAssert_ok _ _ _ hs, endAssert_ok _ _ _ he, rangeStart_ok _ _ hs, rangeEnd_ok _ _ _ he]
   by_cases hA : isCharBoundary s (bdStart sb) = true
   · by_cases hB : isCharBoundary s (bdEnd s.length eb) = true
@@ -138,6 +143,13 @@ theorem replaceRange_eq (ovf : Bool) (s : Bytes) (sb eb : Bd) (t : Bytes) (hs : 
       simp only [hA, hB, if_true, true_and, this, and_true]
     · simp [hA, hB]
   · simp [hA]
+
+theorem replaceRange_eq (ovf : Bool) (s : Bytes) (sb eb : Bd) (t : Bytes) (hs : BdOk sb) (he : BdOk eb) :
+    replaceRange ovf s sb eb t =
+      if isCharBoundary s (bdStart sb) = true ∧ isCharBoundary s (bdEnd s.length eb) = true
+          ∧ bdStart sb ≤ bdEnd s.length eb
+      then .ok (s.take (bdStart sb) ++ t ++ s.drop (bdEnd s.length eb)) else .panic :=
+  replaceRangeWith_eq _ _ s sb eb t hs he
 
 theorem replaceRange_split (ovf : Bool) (l₁ l₂ l₃ : List Char) (sb eb : Bd) (t : Bytes)
     (hs : BdOk sb) (he : BdOk eb) (h1 : bdStart sb = (encode l₁).length)
@@ -152,35 +164,46 @@ theorem replaceRange_split (ovf : Bool) (l₁ l₂ l₃ : List Char) (sb eb : Bd
     rw [encode3]; exact List.drop_left' (by simp)
   simp only [hs'.1.2, hs'.2, ht, hd, and_self, true_and, Nat.le_add_right, if_true]
 
-/-- **F7 on the model**: with overflow checks off `s.replace_range(..=usize::MAX, t)` does not
-panic: it inserts `t` in front (std panics).  (`Gen.*_CHECKED = 0`: the source uses plain `+`.) -/
+/-- **F7 on the model**: when `n + 1` is not overflow-checked, `s.replace_range(..=usize::MAX, t)`
+does not panic: it inserts `t` in front (std panics) … -/
 theorem replaceRange_wraps (s t : Bytes) :
-    replaceRange false s .unbounded (.incl (USIZE - 1)) t = .ok (t ++ s) := by
+    replaceRangeWith false false s .unbounded (.incl (USIZE - 1)) t = .ok (t ++ s) := by
   have h0 := isCharBoundary_zero s
   have hw : addOne false (USIZE - 1) = .ok 0 := by decide
-  simp [replaceRange, startAssert, endAssert, spliceBytes, replaceOvf, vecDrainOvf,
-    Gen.STR_REPLACE_RANGE_END_CHECKED, Gen.VEC_DRAIN_END_CHECKED, rangeStart, rangeEnd, hw, h0]
+  simp [replaceRangeWith, startAssert, endAssert, spliceBytes, rangeStart, rangeEnd, hw, h0]
 
-theorem replaceRange_checked (s t : Bytes) :
-    replaceRange true s .unbounded (.incl (USIZE - 1)) t = .panic := by
+/-- … and panics as soon as `replace_range`'s own `n + 1` is checked (overflow checks of the
+profile, or `checked_add` in the source). -/
+theorem replaceRange_checked (o₂ : Bool) (s t : Bytes) :
+    replaceRangeWith true o₂ s .unbounded (.incl (USIZE - 1)) t = .panic := by
   have hw : addOne true (USIZE - 1) = .panic := by decide
-  simp [replaceRange, startAssert, endAssert, replaceOvf, hw]
+  simp [replaceRangeWith, startAssert, endAssert, hw]
 
-/-- **F7 on the model**: `s.drain(..=usize::MAX)` with overflow checks off drains nothing -/
+/-- **F7 on the model**: `s.drain(..=usize::MAX)` drains nothing when `n + 1` is unchecked … -/
 theorem drain_wraps (s : Bytes) (take back : Nat) (hv : Valid s) :
-    drain false s .unbounded (.incl (USIZE - 1)) take back false = .ok ⟨s, [], []⟩ := by
+    drainWith false s .unbounded (.incl (USIZE - 1)) take back false = .ok ⟨s, [], []⟩ := by
   have hw : addOne false (USIZE - 1) = .ok 0 := by decide
-  have h0 := isCharBoundary_zero s
   obtain ⟨l, rfl⟩ := hv
   have := drainCore_split [] [] l take back false
   simp only [List.nil_append, encode_nil, List.length_nil, Nat.add_zero] at this
-  have hf : drainOvf false = false := by decide
-  simp only [drain, hf, rangeStart, rangeEnd, hw]
+  simp only [drainWith, rangeStart, rangeEnd, hw]
   simpa using this
 
+/-- … and panics when it is checked. -/
 theorem drain_checked (s : Bytes) (take back : Nat) (forget : Bool) :
-    drain true s .unbounded (.incl (USIZE - 1)) take back forget = .panic := by
+    drainWith true s .unbounded (.incl (USIZE - 1)) take back forget = .panic := by
   have hw : addOne true (USIZE - 1) = .panic := by decide
-  simp [drain, drainOvf, rangeStart, rangeEnd, hw]
+  simp [drainWith, rangeStart, rangeEnd, hw]
+
+/-- which of the two the build has: checked iff the profile checks overflow or the source uses
+`checked_add` (flag regenerated from the source) -/
+theorem drain_profile (ovf : Bool) (s : Bytes) (sb eb : Bd) (take back : Nat) (forget : Bool) :
+    drain ovf s sb eb take back forget
+      = drainWith (ovf || Gen.STR_DRAIN_END_CHECKED == 1) s sb eb take back forget := rfl
+
+theorem replaceRange_profile (ovf : Bool) (s : Bytes) (sb eb : Bd) (t : Bytes) :
+    replaceRange ovf s sb eb t
+      = replaceRangeWith (ovf || Gen.STR_REPLACE_RANGE_END_CHECKED == 1) (ovf || Gen.VEC_DRAIN_END_CHECKED == 1)
+          s sb eb t := rfl
 
 end Bump.Str
